@@ -638,6 +638,13 @@ func (g *pgen) richEnv() ([]any, J) {
 }
 
 var moreFilters = []func(g *pgen, recv J) J{
+	// arguments that are pipelines themselves (in parentheses), after an earlier filter of the same expression
+	func(g *pgen, r J) J {
+		return eFilter(eFilter(r, "append", eLit(vStr("_"))), "append", eFilter(eFilter(eVar(pick(g.r, g.names)), "append", eLit(vStr("~"))), "upcase"))
+	},
+	func(g *pgen, r J) J {
+		return eFilter(eFilter(r, "prepend", eVar(pick(g.r, g.names))), "append", J{"t": "idx", "e": eVar(pick(g.r, g.arrays)), "i": eFilter(eVar("i1"), "plus", eLit(vInt(g.r.Intn(2))))})
+	},
 	func(g *pgen, r J) J {
 		return eFilter(eVar(pick(g.r, g.arrays)), pick(g.r, []string{"sort", "reverse", "uniq", "compact"}))
 	},
